@@ -133,7 +133,33 @@ def cmd_run(sid, prop, tier='quick', scale=None):
             'tail': r.stdout.strip().splitlines()[-3:]}
 
 
+def cmd_table(results_files):
+    """markdown table: one row per seeded change, from its meta.json and the given RESULTS-*.json files"""
+    res = {}
+    for f in results_files:
+        for r in json.load(open(f)):
+            res.setdefault(r['id'], []).append(r)
+    print('| change | impl | what it does (first sentence of its author\'s summary) | result (first fingerprint, instances in the quick batch) |')
+    print('|---|---|---|---|')
+    for sid in sorted(os.listdir(os.path.join(VERIF, 'seeded'))):
+        mp = os.path.join(VERIF, 'seeded', sid, 'meta.json')
+        if not os.path.exists(mp):
+            continue
+        meta = json.load(open(mp))
+        summ = re.split(r'(?<=[.:;])\s', (meta.get('summary') or '').strip())[0][:230].replace('|', '/')
+        cells = []
+        for r in res.get(sid, []):
+            lines = [l for l in (r['result'] or {}).get('lines', []) if 'fingerprint=' in l]
+            tot = sum(int(x) for l in lines for x in re.findall(r'instances=(\d+)', l))
+            fp = re.sub(r'.*fingerprint=', '', lines[0]).split(' instances=')[0][:90].replace('|', '/') if lines else ''
+            cells.append('%s %s%s' % (r['property'], 'caught: `%s` (%d)' % (fp, tot) if r['caught'] else '**missed**', ''))
+        print('| %s | %s | %s | %s |' % (sid, meta.get('implementation', '?'), summ, '; '.join(cells) or 'not run'))
+    return 0
+
+
 def main(argv):
+    if argv[0] == 'table':
+        return cmd_table(argv[1:])
     if argv[0] == 'import':
         return cmd_import(argv[1], argv[2])
     if argv[0] == 'run':
